@@ -41,9 +41,9 @@ func tryEvalCheck(r *rep.Run, kleene bool) {
 		r.SetBudget(1800e9)
 	}
 	if kleene {
-		r.Rule = "every CORE/RICH program up to the node bound (+ the one-node programs only infix notation can write) x 16 optimisation subsets x {events off, ReportEvent} (+ variables resolved by name, + registered variables in a config that allows undefined ones, there also through the context NewCtxFromVars builds from the available values) x every split of its variables into available/unavailable x every value assignment; restricted to pairs in which no operator application over known values fails; oracle: strong-Kleene three-valued reference R2 — R2 definite => TryEval returns exactly that value with nil error; R2 unknown => TryEval returns DNE or a value that Eval confirms on every completion, never an error; TryEvalBool mirrors (ErrDNE iff DNE). non-trivial = (program,split,assignment) triples with at least one unavailable variable and a definite R2 answer"
+		r.Rule = "every CORE/RICH program up to the node bound (+ the one-node programs only infix notation can write) x 16 optimisation subsets x {events off, ReportEvent} (+ variables resolved by name, + registered variables in a config that allows undefined ones, there also through the context NewCtxFromVars builds from the available values; unavailable variables also expressed as cached-with-the-DNE-marker-as-value) x every split of its variables into available/unavailable x every value assignment; plus programs compiled against an EXTENSION of the config the context was built from (0..18, 254..300 bound variables, one or two late ones): late variables are unavailable; restricted to pairs in which no operator application over known values fails; oracle: strong-Kleene three-valued reference R2 — R2 definite => TryEval returns exactly that value with nil error; R2 unknown => TryEval returns DNE or a value that Eval confirms on every completion, never an error; TryEvalBool mirrors (ErrDNE iff DNE). non-trivial = (program,split,assignment) triples with at least one unavailable variable and a definite R2 answer"
 	} else {
-		r.Rule = "every CORE/RICH program up to the node bound (+ the one-node programs only infix notation can write) x 16 optimisation subsets x {events off, ReportEvent} (+ variables resolved by name, + registered variables in a config that allows undefined ones, there also through the context NewCtxFromVars builds from the available values) x every split of its variables into available/unavailable (2^k) x every value assignment to both parts (thorough: plus one ill-typed value per unavailable variable); oracle: a definite TryEval answer equals real Eval on EVERY completion on which Eval succeeds; with everything available TryEval == Eval (value and error-ness); a definite answer on a split stays the same on every larger split; no Get on an unavailable variable. non-trivial = triples with an unavailable variable and a definite TryEval answer"
+		r.Rule = "every CORE/RICH program up to the node bound (+ the one-node programs only infix notation can write) x 16 optimisation subsets x {events off, ReportEvent} (+ variables resolved by name, + registered variables in a config that allows undefined ones, there also through the context NewCtxFromVars builds from the available values; unavailable variables also expressed as cached-with-the-DNE-marker-as-value) x every split of its variables into available/unavailable (2^k) x every value assignment to both parts (thorough: plus one ill-typed value per unavailable variable); oracle: a definite TryEval answer equals real Eval on EVERY completion on which Eval succeeds; with everything available TryEval == Eval (value and error-ness); a definite answer on a split stays the same on every larger split; no Get on an unavailable variable. Plus 9 programs with user operators that keep the parameter slice they were handed (tuple constructors of 1/3/4 parameters) or read a variable by name through their context. non-trivial = triples with an unavailable variable and a definite TryEval answer"
 	}
 	r.Assume = []string{"small-scope hypothesis on tree size", "the fetcher truthfully reports availability (Cached) and values"}
 	r.Cov["bounds"] = map[string]int{"core_max_nodes": coreMax, "rich_max_nodes": richMax}
@@ -198,6 +198,16 @@ func tryEvalCheck(r *rep.Run, kleene bool) {
 								r.Violate("embedding-fetcher", p.Src+c.o.String(), sprintf("a fetcher that embeds a library fetcher and overrides Cached/Get gets %s where the plain fetcher gets %s", g2, got), caseDesc(p.Src, c.o, p.Vars, vals, avail, nil))
 							}
 						}
+						// the other way to say "unavailable": every key is known and
+						// the missing ones carry the DNE marker as their value
+						if mask != 1<<k-1 {
+							h.Reset()
+							gd := h.TryEval(c.e, dneValued{c.f})
+							ex++
+							if !drive.SameOutcome(gd, got) || (got.Err == nil && isDNE(got.Val) != isDNE(gd.Val)) {
+								r.Violate("dne-valued-variable", p.Src+c.o.String(), sprintf("with the unavailable variables bound to the DNE marker (and reported as cached) TryEval gives %s, with the same variables reported as not cached it gives %s", gd, got), caseDesc(p.Src, c.o, p.Vars, vals, avail, nil))
+							}
+						}
 						h.Reset()
 					}
 					ex++
@@ -344,7 +354,87 @@ func tryEvalCheck(r *rep.Run, kleene bool) {
 		}
 	})
 	r.Cov["programs_completed"] = done
+	tryEvalLateVariable(r)
+	if !kleene {
+		tryEvalUserOperators(r)
+	}
 	r.Finish()
+}
+
+// tryEvalLateVariable: the context is built by the library from a BASE config
+// (n variables, keys 1..n, all bound), the program is compiled against an
+// EXTENSION of it that registers one or two further variables afterwards.
+// Those late variables are unknown to the context, so TryEval must treat them
+// as unavailable: DNE unless the bound variables decide. n covers every
+// fetcher size 0..18 (slice fetchers), and one size beyond the slice range.
+func tryEvalLateVariable(r *rep.Run) {
+	var runs int64
+	for _, n := range []int{0, 1, 2, 3, 4, 5, 6, 7, 8, 9, 10, 14, 15, 16, 17, 18, 254, 255, 256, 300} {
+		for undef := 0; undef < 2; undef++ {
+			base := eval.NewConfig()
+			if undef == 1 {
+				base.CompileOptions[eval.AllowUndefinedVariable] = true
+			}
+			vals := map[string]interface{}{}
+			for i := 1; i <= n; i++ {
+				name := fmt.Sprintf("v%d", i)
+				eval.GetOrRegisterKey(base, name)
+				vals[name] = true
+			}
+			ext := eval.NewConfig(eval.ExtendConf(base))
+			for late := 1; late <= 2; late++ {
+				eval.GetOrRegisterKey(ext, fmt.Sprintf("late%d", late))
+				lv := fmt.Sprintf("late%d", late)
+				first := "true"
+				if n > 0 {
+					first = "v1"
+				}
+				cases := []struct {
+					src  string
+					want interface{} // nil: DNE
+				}{
+					{"(if (eq " + lv + " 1) 10 20)", nil},
+					{"(and " + first + " (eq " + lv + " 1))", nil},
+					{"(or " + first + " (eq " + lv + " 1))", true},
+					{"(and (not " + first + ") " + lv + ")", false},
+					{"(eq " + lv + " " + lv + ")", nil},
+					{"(+ 1 " + lv + ")", nil},
+				}
+				for _, cse := range cases {
+					e, err := eval.Compile(ext, cse.src)
+					if err != nil {
+						r.Violate("compile", cse.src, sprintf("does not compile against the extended config: %v", err), nil)
+						continue
+					}
+					ctxs := map[string]func() *eval.Ctx{
+						"NewCtxFromVars(base config)": func() *eval.Ctx { return eval.NewCtxFromVars(base, vals) },
+						"NewMapVarFetcher":            func() *eval.Ctx { return &eval.Ctx{VariableFetcher: eval.NewMapVarFetcher(vals)} },
+					}
+					if n < 200 && n > 0 {
+						ctxs["NewSliceVarFetcher(base config)"] = func() *eval.Ctx { return &eval.Ctx{VariableFetcher: eval.NewSliceVarFetcher(base, vals)} }
+					}
+					for cname, mk := range ctxs {
+						var v eval.Value
+						var terr error
+						p, site := drive.Fence(func() { v, terr = e.TryEval(mk()) })
+						runs++
+						got := drive.Out{Val: v, Err: terr, Panic: p, Site: site}
+						ok := p == nil && terr == nil && ((cse.want == nil && isDNE(v)) || (cse.want != nil && v == cse.want))
+						if !ok {
+							wantS := "DNE"
+							if cse.want != nil {
+								wantS = fmt.Sprint(cse.want)
+							}
+							r.Violate("late-variable", cse.src+cname, sprintf("TryEval of %s gives %s, expected %s: the context (%s, %d bound variables) does not know the variable registered afterwards", cse.src, got, wantS, cname, n),
+								map[string]interface{}{"source": cse.src, "context": cname, "base_variables": n, "allow_undefined": undef == 1, "extended_keys": fmt.Sprint(len(ext.VariableKeyMap))})
+						}
+					}
+				}
+			}
+		}
+	}
+	r.Cov["late_variable_runs"] = runs
+	r.Add(0, runs, runs, runs, runs)
 }
 
 // embedMap / embedSlice: user fetchers that embed a library fetcher (empty)
@@ -365,6 +455,20 @@ type embedSlice struct {
 func (e embedSlice) Get(k eval.VariableKey, s string) (eval.Value, error) { return e.f.Get(k, s) }
 func (e embedSlice) Cached(k eval.VariableKey, s string) bool             { return e.f.Cached(k, s) }
 
+// dneValued: a fetcher that knows every key (Cached is always true) and
+// answers an unavailable variable with the DNE marker AS ITS VALUE (the
+// `name: DNE` convention of GenVariables).
+type dneValued struct{ f *drive.Fetcher }
+
+func (d dneValued) Get(k eval.VariableKey, s string) (eval.Value, error) {
+	if i, ok := d.f.Idx[s]; ok && d.f.Avail != nil && !d.f.Avail[i] {
+		return eval.DNE, nil
+	}
+	return d.f.Get(k, s)
+}
+func (d dneValued) Set(eval.VariableKey, string, eval.Value) error { return nil }
+func (d dneValued) Cached(eval.VariableKey, string) bool           { return true }
+
 func popcount(x int) int {
 	n := 0
 	for ; x != 0; x &= x - 1 {
@@ -380,4 +484,168 @@ func tryEvalBool(e *eval.Expr, f eval.VariableFetcher) (b bool, err error) {
 		}
 	}()
 	return e.TryEvalBool(&eval.Ctx{VariableFetcher: f})
+}
+
+// tryEvalUserOperators: user operators that do what the API lets them do —
+// keep the parameter slice they were handed (a tuple constructor of 1, 3 or 4
+// parameters) and read a variable by name through the context they were
+// handed. Every split x every assignment; oracles of C04: a definite TryEval
+// answer equals Eval on every completion on which Eval succeeds, and with
+// everything available TryEval == Eval.
+func tryEvalUserOperators(r *rep.Run) {
+	h := drive.NewHarness()
+	tup := func(_ *eval.Ctx, params []eval.Value) (eval.Value, error) { return params, nil }
+	h.OpMap["tup1"], h.OpMap["tup3"], h.OpMap["tup4"] = tup, tup, tup
+	h.OpMap["nth"] = func(_ *eval.Ctx, params []eval.Value) (eval.Value, error) {
+		if len(params) != 2 {
+			return nil, ref.ErrBuiltin
+		}
+		l, ok1 := params[0].([]eval.Value)
+		i, ok2 := params[1].(int64)
+		if !ok1 || !ok2 || i < 0 || int(i) >= len(l) {
+			return nil, ref.ErrBuiltin
+		}
+		return l[i], nil
+	}
+	// (var_eq "name" v): is the variable called name equal to v? Read through ctx.
+	h.OpMap["var_eq"] = func(ctx *eval.Ctx, params []eval.Value) (eval.Value, error) {
+		if len(params) != 2 {
+			return nil, ref.ErrBuiltin
+		}
+		name, _ := params[0].(string)
+		f, ok := ctx.VariableFetcher.(*drive.Fetcher)
+		if !ok {
+			return nil, ref.ErrBuiltin
+		}
+		i, ok := f.Idx[name]
+		if !ok {
+			return nil, ref.ErrBuiltin
+		}
+		f.FromOp = true
+		v, err := ctx.Get(f.Keys[i], name)
+		f.FromOp = false
+		if err != nil {
+			return nil, err
+		}
+		return v == params[1], nil
+	}
+	vI := func(i int) term.VarDecl { return term.VarDecl{Name: sprintf("n%d", i), Ty: I} }
+	vB := func(i int) term.VarDecl { return term.VarDecl{Name: sprintf("b%d", i), Ty: B} }
+	progs := []*Prog{
+		{Src: "(or (= (nth (tup3 n0 n1 n2) 1) 1) b3)", Vars: []term.VarDecl{vI(0), vI(1), vI(2), vB(3)}},
+		{Src: "(and b3 (= (nth (tup3 n0 n1 n2) 0) (nth (tup3 n0 n1 n2) 2)))", Vars: []term.VarDecl{vI(0), vI(1), vI(2), vB(3)}},
+		{Src: "(= (+ (nth (tup4 n0 n1 1 n2) 3) (nth (tup1 n1) 0) 1) 2)", Vars: []term.VarDecl{vI(0), vI(1), vI(2)}},
+		{Src: "(if b3 (nth (tup3 n0 n1 n2) 1) (+ (nth (tup3 n0 1 n2) 2) n1))", Vars: []term.VarDecl{vI(0), vI(1), vI(2), vB(3)}},
+		{Src: "(or b2 (= (nth (tup1 n0) 0) (+ n1 1 0)))", Vars: []term.VarDecl{vI(0), vI(1), vB(2)}},
+		{Src: "(and (= n0 1) (var_eq \"n1\" 1))", Vars: []term.VarDecl{vI(0), vI(1)}},
+		{Src: "(or (= n0 1) (not (var_eq \"n1\" 0)))", Vars: []term.VarDecl{vI(0), vI(1)}},
+		{Src: "(if (var_eq \"b1\" true) n0 (+ n0 1))", Vars: []term.VarDecl{vI(0), vB(1)}},
+		{Src: "(and b0 (var_eq \"b1\" true) (var_eq \"n2\" 1))", Vars: []term.VarDecl{vB(0), vB(1), vI(2)}},
+	}
+	var runs, nontrivial int64
+	for _, p := range progs {
+		k := len(p.Vars)
+		doms := make([][]interface{}, k)
+		total := 1
+		for v := range p.Vars {
+			if p.Vars[v].Ty == B {
+				doms[v] = []interface{}{true, false}
+			} else {
+				doms[v] = []interface{}{int64(0), int64(1), int64(4)}
+			}
+			total *= len(doms[v])
+		}
+		decode := func(idx int, vals []interface{}) {
+			for v := 0; v < k; v++ {
+				vals[v] = doms[v][idx%len(doms[v])]
+				idx /= len(doms[v])
+			}
+		}
+		for _, o := range []drive.Opt{{}, {CF: true, RN: true, FE: true, RO: true}, {FE: true}, {RN: true, RO: true}, {Undef: 1}, {CF: true, RN: true, FE: true, RO: true, Undef: 1}} {
+			cfg := h.NewConfig(p.Vars, o)
+			e, err := h.Compile(cfg, p.Src, 0)
+			if err != nil {
+				r.Violate("compile", p.Src+o.String(), sprintf("program with user operators does not compile: %v", err), nil)
+				continue
+			}
+			f := drive.NewFetcher(h, p.Vars, o)
+			table := make([]drive.Out, total)
+			for idx := 0; idx < total; idx++ {
+				decode(idx, f.Vals)
+				f.Avail = nil
+				h.Reset()
+				table[idx] = h.Eval(e, f)
+				runs++
+			}
+			vals := make([]interface{}, k)
+			avail := make([]bool, k)
+			for mask := 0; mask < 1<<k; mask++ {
+				for v := 0; v < k; v++ {
+					avail[v] = mask&(1<<v) != 0
+				}
+				for idx := 0; idx < total; idx++ {
+					// unavailable variables are fixed at their first value
+					skip := false
+					for v, x := 0, idx; v < k; v++ {
+						if !avail[v] && x%len(doms[v]) != 0 {
+							skip = true
+						}
+						x /= len(doms[v])
+					}
+					if skip {
+						continue
+					}
+					decode(idx, vals)
+					copy(f.Vals, vals)
+					f.Avail = avail
+					h.Reset()
+					got := h.TryEval(e, f)
+					runs++
+					d := func(extra map[string]interface{}) map[string]interface{} {
+						return caseDesc(p.Src, o, p.Vars, vals, avail, extra)
+					}
+					if got.Panic != nil {
+						r.Violate("panic", p.Src+o.String(), sprintf("TryEval panics: %v at %s", got.Panic, got.Site), d(nil))
+						continue
+					}
+					if len(h.Protocol) > 0 {
+						r.Violate("fetcher-protocol", p.Src+o.String(), h.Protocol[0], d(nil))
+					}
+					if mask == 1<<k-1 {
+						full := table[idx]
+						if (got.Err != nil) != (full.Err != nil) || (got.Err == nil && !ref.ValEqual(got.Val, full.Val)) {
+							r.Violate("all-available", p.Src+o.String(), sprintf("with every variable available TryEval=%s but Eval=%s", got, full), d(nil))
+						}
+						continue
+					}
+					if got.Err != nil || isDNE(got.Val) {
+						continue
+					}
+					nontrivial++
+					for full := 0; full < total; full++ {
+						match := true
+						for v, a, b := 0, full, idx; v < k; v++ {
+							if avail[v] && a%len(doms[v]) != b%len(doms[v]) {
+								match = false
+							}
+							a /= len(doms[v])
+							b /= len(doms[v])
+						}
+						if !match || table[full].Err != nil || table[full].Panic != nil {
+							continue
+						}
+						if !ref.ValEqual(table[full].Val, got.Val) {
+							cv := make([]interface{}, k)
+							decode(full, cv)
+							r.Violate("contradicted", p.Src+o.String(), sprintf("TryEval answers %v with %d variable(s) unavailable, but Eval returns %v once they are fetched", got.Val, k-popcount(mask), table[full].Val),
+								d(map[string]interface{}{"completion": drive.BindingMap(p.Vars, cv, nil), "tryeval": got.String(), "eval": table[full].String()}))
+							break
+						}
+					}
+				}
+			}
+		}
+	}
+	r.Cov["user_operator_runs"] = runs
+	r.Add(0, runs, runs, runs, nontrivial)
 }
